@@ -81,7 +81,18 @@ def make_case(kinds_per_block, tiling, rng, scalar_as_matrix_p=0.3, tag=None):
             row_names.append(ref)
         rows_sx.append(row_sx)
         names.append(row_names)
-    src.append("[" + "; ".join(" ".join(r) for r in names) + "]")
+    lit_text = "[" + "; ".join(" ".join(r) for r in names) + "]"
+    varpos = [(i, j) for i, r in enumerate(names) for j, t in enumerate(r) if t.startswith("b") and t[1:].isdigit()]
+    if len(varpos) >= 2 and rng.random() < 0.12:
+        # one block is a name bound by a match arm (a local environment) that shadows a global `w` holding ANOTHER block
+        (i, j), (i2, j2) = rng.sample(varpos, 2)
+        arm = [list(r) for r in names]; bound = arm[i][j]; arm[i][j] = "w"
+        arm_text = "[" + "; ".join(" ".join(r) for r in arm) + "]"
+        src.append("w := %s" % names[i2][j2])
+        src.append("%s? | w => %s | * => %s." % (bound, arm_text, lit_text))
+        tag = dict(tag or {}, written="arm-bound-block")
+    else:
+        src.append(lit_text)
     case = dict(sx=sx(["cat"] + rows_sx), impl=dict(src="\n".join(src)), tags=tag or {})
     return case
 
